@@ -1,0 +1,20 @@
+//go:build verif
+
+package builtins
+
+import "github.com/risor-io/risor/object"
+
+// The hooks of this package forward to the hook variables of the object
+// package (phases and semantics are described there).
+
+func verifLock(mu any, phase int) {
+	if object.VerifLock != nil {
+		object.VerifLock(mu, phase)
+	}
+}
+
+func verifAccess(obj any, field string, write bool) {
+	if object.VerifAccess != nil {
+		object.VerifAccess(obj, field, write)
+	}
+}
